@@ -41,9 +41,103 @@ def run(chk, crate="rssl_hlsl", P="C01"):
         rule_intrinsic(chk, P)
     rule_swizzle(chk, crate, P)
     rule_order(chk, crate, P)
+    import c04
+    c04.rule_decl_refix(chk, prefix=P + ".decl", crate=crate)
+    rule_export_modind(chk, crate, P)
     if P == "C01":
         rule_conv(chk, P)
     rule_text(chk, P)
+
+
+MI_TYPES = ["Bool", "Int32", "UInt32", "Float32", "Int323", "Float322", "Float324", "Float322x2", "Int324x4", "Enum", "Struct", "Float32[4]", "Float324[2]"]
+_MI = {}
+
+
+def _mi_task(item):
+    """-> (family, readable, cases, first difference, unreadable reason)"""
+    import elabmodel as EM
+    import exportmodel as XM
+    kind, arg = item
+    if "rt" not in _MI:
+        _MI["rt"] = XM.RoundTrip(_MI["facts"], _MI["crate"])
+    rt = _MI["rt"]
+    el = rt.el
+    types = [t for t in MI_TYPES if t in el.u.names]
+    rs = [el.ety(t, 0, "Lvalue") for t in ("Int32", "Float32", "Bool") if t in el.u.names]
+    cases = 0
+    bad = None
+
+    def verdict(res, operands):
+        if res[0] == "unreadable":
+            raise I.Unknown(res[1])
+        if res[0] != "Ok" or res[2] is None:
+            return None
+        x = rt.export(res[1], operands)
+        if x[0] == "unreadable":
+            raise I.Unknown(x[1])
+        return "exported" if x[0] == "Ok" else "%s (%s)" % ("refused" if x[0] == "Err" else "aborts", x[1])
+
+    def pair(what, build):
+        nonlocal cases, bad
+        vs = []
+        for m in (0, 1):
+            res, operands = build(m)
+            vs.append(verdict(res, operands))
+        if vs[0] is None or vs[1] is None:
+            return
+        cases += 1
+        if vs[0] != vs[1] and bad is None:
+            bad = "%s: %s when the operand is plain, %s when it is const" % (what, vs[0], vs[1])
+    try:
+        for t in types:
+            if kind == "binop":
+                for r in rs:
+                    pair("%s %s %s" % (t, arg, el.describe(r)), lambda m: (el.run_binop(arg, el.ety(t, m, "Lvalue"), r), {"L": el.ety(t, m, "Lvalue"), "R": r}))
+            elif kind == "unop":
+                pair("%s applied to %s" % (arg, t), lambda m: (el.run_unop(arg, el.ety(t, m, "Lvalue")), {"L": el.ety(t, m, "Lvalue")}))
+            elif kind == "subscript":
+                for r in rs[:1]:
+                    pair("%s[%s]" % (t, el.describe(r)), lambda m: (el.run_expr(I.Enum("Expression", "ArraySubscript", {"0": EM.located("L"), "1": EM.located("R")}), {"L": el.ety(t, m, "Lvalue"), "R": r}),
+                                                                     {"L": el.ety(t, m, "Lvalue"), "R": r}))
+            elif kind == "member":
+                for sw in ("x", "xy", "wzyx", "_m00", "_m01_m10", "a"):
+                    pair("%s.%s" % (t, sw), lambda m: (el.run_expr(I.Enum("Expression", "Member", {"0": EM.located("L"), "1": EM.member_path(sw)}), {"L": el.ety(t, m, "Lvalue")}), {"L": el.ety(t, m, "Lvalue")}))
+    except I.Unknown as e:
+        return (kind + "/" + arg, False, cases, bad, str(e)[:120])
+    return (kind + "/" + arg, True, cases, bad, None)
+
+
+def rule_export_modind(chk, crate, P):
+    """The exporter's verdict on an expression does not depend on a const qualifier of an operand: for every operator,
+    subscript and member access of the typed-expression model, generate_expression either exports both the plain and the
+    const variant or refuses both for the same reason (a refusal that looks at the type with its modifiers still on lets
+    the const variant through). Walked by the reader; nothing is executed."""
+    import multiprocessing as mp
+    import os
+    f = chk.facts
+    _MI.clear()
+    _MI["facts"], _MI["crate"] = f, crate
+    gen = f.fn("generate_expression", crate)
+    if not gen:
+        return False
+    binops = f.variants("ast_expressions::BinOp", "rssl_ast") or []
+    unops = [u for u in (f.variants("ast_expressions::UnaryOp", "rssl_ast") or []) if u not in ("Dereference", "AddressOf")]
+    if chk.tier == "quick":
+        binops = [b for b in binops if b in ("Add", "Multiply", "LeftShift", "LessThan", "BooleanAnd", "BitwiseAnd", "Assignment", "SumAssignment", "Sequence")]
+    items = [("binop", b) for b in binops] + [("unop", u) for u in unops] + [("subscript", "index"), ("member", "path")]
+    n = min(len(items), int(os.environ.get("VERIF_JOBS", "0") or 0) or (os.cpu_count() or 2))
+    if n <= 1:
+        res = [_mi_task(x) for x in items]
+    else:
+        with mp.get_context("fork").Pool(n) as pool:
+            res = pool.map(_mi_task, items, chunksize=1)
+    if not all(r[1] for r in res):
+        chk.unreadable(P + ".modind/readable", "%s generate_expression on the expression model" % crate, [(r[0], r[4]) for r in res if not r[1]][:1], where(gen))
+        return False
+    for fam, _ok, cases, bad, _u in sorted(res):
+        chk.ob("%s.modind/%s" % (P, fam), bad is None, "%d plain/const pairs get the same verdict from the exporter" % cases if bad is None else bad, where(gen), sample={"family": fam, "pairs": cases})
+    chk.floor(P + ".floor/modind-pairs", sum(r[2] for r in res), 150, "plain/const expression pairs exported", where(gen))
+    return True
 
 
 def rule_text(chk, P):
